@@ -260,6 +260,21 @@ class C14(fw.Prop):
             trees.append(("a", [("u8", i % 256) for i in range(n)]))
             trees.append(("s", [("n",) for _ in range(n)]))
         trees += [("n",), ("b", True), ("b", False)]
+        # calendar boundaries: the last day of every month, 29 February in years divisible by 4 / 100 / 400
+        for (y, m, d) in [(2000, 2, 29), (2400, 2, 29), (1600, 2, 29), (2024, 2, 29), (4, 2, 29), (2100, 2, 28), (1900, 2, 28), (9999, 12, 31), (1, 1, 1)] + \
+                [(2023, mm, 31 if mm in (1, 3, 5, 7, 8, 10, 12) else 30 if mm != 2 else 28) for mm in range(1, 13)]:
+            trees.append(("da", y.to_bytes(2, "big") + bytes([m, d, 0xFF]), (y, m, d)))
+            off, st = rng.choice([None, 0, 60, -120]), rng.choice([0, 0x80])
+            dev = 0x8000 if off is None else (-off) % 65536
+            H, M, S, hu = rng.randint(0, 23), rng.randint(0, 59), rng.randint(0, 59), rng.randint(0, 99)
+            trees.append(("dt", y.to_bytes(2, "big") + bytes([m, d, 0xFF, H, M, S, hu]) + dev.to_bytes(2, "big") + bytes([st]), (y, m, d, H, M, S, hu, off, st)))
+            trees.append(("s", [trees[-1], ("a", [trees[-2]])]))
+        # many empty containers side by side (flat, not deep), also as the last column of many rows
+        for n in (31, 32, 33, 64, 100, 300):
+            trees.append(("a", [("a", []) for _ in range(n)]))
+            trees.append(("s", [("s", []) for _ in range(n)]))
+            trees.append(("a", [("s", [("u8", i % 256), ("a", [])]) for i in range(n)]))
+            trees.append(("s", [("a", [("s", [])]) for _ in range(n)] + [("s", [("a", [("u8", 1)])])]))
         nested = ("u8", 7)
         for _ in range(6):
             nested = ("s", [nested, ("a", [nested])])
